@@ -316,6 +316,10 @@ var c19HandJSON = []string{
 	`{"Operations":[{"Directives":[{"Name":"d","Arguments":null,"Location":"QUERY"}]}]}`,
 	`{"Operations":[{"Directives":[{"Name":"d","Location":5}]}]}`,
 	`{"Operations":[{"Directives":[5]}]}`, `{"Operations":[{"Directives":"s"}]}`,
+	`{"Comment":5}`, `{"Comment":{"List":null}}`, `{"Position":5}`, `{"Operations":[{"Position":5}]}`, `{"Operations":[{"Comment":5}]}`, `{"Fragments":[{"Definition":5}]}`, `{"Fragments":[{"Position":"s"}]}`,
+	`{"Fragments":[{"Comment":5,"Name":"F"}]}`, `{"Operations":[{"VariableDefinitions":[{"Variable":"v","Type":{"NamedType":"Int"},"Comment":5}]}]}`,
+	`{"Operations":[{"VariableDefinitions":[{"Variable":"v","Type":{"NamedType":"Int","Position":5},"Definition":"s"}]}]}`,
+	`{"Operations":[{"VariableDefinitions":[{"Variable":"v","Type":{"NamedType":"Int","Position":5}}]}]}`,
 }
 
 // items of a SelectionSet array (wrapped by selDoc)
@@ -361,6 +365,14 @@ var c19HandItems = []string{
 	`{"Name":"F","Directives":[{"Name":"d","Arguments":null}]}`, `{"Name":"F","Directives":[{"Name":5}]}`, `{"Name":"F","Directives":[7]}`, `{"Name":"F","Directives":{}}`, `{"Name":"F","Directives":[]}`,
 	`{"TypeCondition":"T","Directives":[{"Name":"d"}],"SelectionSet":[{"Alias":"a","Name":"a"}]}`, `{"TypeCondition":"T","Directives":[{"Name":5}]}`, `{"TypeCondition":"T","Directives":[[]]}`,
 	// strings
+	// links, Comment, Position: null, wrong type (an object would be decoded: outside the model)
+	`{"Alias":"a","Definition":null,"ObjectDefinition":null,"Position":null,"Comment":null}`, `{"Alias":"a","Definition":5}`, `{"Alias":"a","ObjectDefinition":"s"}`, `{"Alias":"a","Position":5}`, `{"Alias":"a","Position":[]}`,
+	`{"Alias":"a","Comment":5}`, `{"Alias":"a","Comment":{"List":[{"Value":"#c"}]}}`, `{"Alias":"a","Position":{"Start":1}}`, `{"Alias":"a","Definition":{}}`,
+	`{"Name":"F","Definition":5}`, `{"Name":"F","ObjectDefinition":[]}`, `{"Name":"F","Comment":5}`, `{"Name":"F","Comment":null,"Position":5}`, `{"Name":"F","Definition":{"Name":"F"}}`,
+	`{"TypeCondition":"T","ObjectDefinition":true}`, `{"TypeCondition":"T","Position":"s"}`, `{"TypeCondition":"T","Comment":5,"Definition":5}`,
+	`{"Alias":"a","Arguments":[{"Name":"x","Value":{"Raw":"1","Kind":1,"VariableDefinition":12}}]}`, `{"Alias":"a","Arguments":[{"Name":"x","Value":{"Raw":"1","Kind":1,"ExpectedType":"s"}}]}`,
+	`{"Alias":"a","Arguments":[{"Name":"x","Value":{"Raw":"1","Kind":1},"Comment":5}]}`, `{"Alias":"a","Directives":[{"Name":"d","ParentDefinition":5}]}`, `{"Alias":"a","Directives":[{"Name":"d","Definition":[]}]}`,
+	`{"Alias":"a","Arguments":[{"Name":"x","Value":{"Kind":9,"Children":[{"Name":"k","Value":{"Raw":"1","Kind":1},"Comment":false}]}}]}`,
 	`{"Alias":"\u00e9\ud83d\ude00","Name":"<>&\u2028\"\\\/\b\f\n\r\t"}`, `{"Name":"\ud800"}`, `{"TypeCondition":"\udc00x"}`,
 	// outside the tree type (the model answers `unmodelled`, counted and not compared)
 	`{"Alias":"a","Arguments":[null]}`, `{"Alias":"a","Arguments":[{"Name":"x"}]}`, `{"Alias":"a","Arguments":[{"Name":"x","Value":null}]}`, `{"Alias":"a","Arguments":[{"Name":"x","Value":{"Raw":"1","Kind":12}}]}`,
@@ -369,32 +381,20 @@ var c19HandItems = []string{
 	`1.5`, `{"Alias":"a","Arguments":[{"Name":"x","Value":{"Raw":"1","Kind":1.0}}]}`, `1e2`,
 }
 
-var c19LinkKeys = map[string]bool{"Definition": true, "ObjectDefinition": true, "ParentDefinition": true, "ExpectedType": true, "Comment": true, "Position": true}
-
 var c19SetKeys = []string{"Alias", "TypeCondition", "Name", "SelectionSet", "Directives", "Arguments", "Value", "Kind", "Raw", "Children",
-	"Operation", "Type", "NamedType", "Elem", "NonNull", "Variable", "DefaultValue", "Used", "Location", "VariableDefinitions", "Zzz", "alias", ""}
+	"Operation", "Type", "NamedType", "Elem", "NonNull", "Variable", "DefaultValue", "Used", "Location", "VariableDefinitions", "Zzz", "alias", "",
+	// pointers to structs the tree does not hold: null or a type error in the model, an object is outside it
+	"Definition", "ObjectDefinition", "ParentDefinition", "ExpectedType", "Comment", "Position", "VariableDefinition"}
 
 var c19Junk = []string{`null`, `5`, `-1`, `3`, `12`, `"s"`, `""`, `true`, `false`, `[]`, `{}`, `[null]`, `[5,"s"]`, `{"Alias":"q"}`, `{"TypeCondition":"T"}`, `{"Name":"n"}`,
 	`[{"Name":"n"},{"TypeCondition":"T"},{"Alias":"q","Name":"q"}]`, `{"Alias":"a","TypeCondition":"T","Name":"n","SelectionSet":[{"Name":"F"}]}`, `[[]]`, `"query"`, `{"NamedType":"Int","Elem":null,"NonNull":true}`,
 	`{"Raw":"1","Children":null,"Kind":1}`}
 
-func hasKey(n *impl.JNode, k string) bool {
-	for _, x := range n.Key {
-		if x == k {
-			return true
-		}
-	}
-	return false
-}
-
 func collectNodes(n *impl.JNode, acc *[]*impl.JNode) {
 	if n.K == 'a' || n.K == 'o' {
 		*acc = append(*acc, n)
 	}
-	for i, c := range n.A {
-		if n.K == 'o' && (c19LinkKeys[n.Key[i]] || (n.Key[i] == "VariableDefinition" && hasKey(n, "Raw"))) {
-			continue
-		}
+	for _, c := range n.A {
 		collectNodes(c, acc)
 	}
 }
@@ -404,7 +404,7 @@ func junk(r *rng.R) *impl.JNode {
 	return n
 }
 
-// one random in-domain mutation (no duplicate keys, link keys untouched); returns its name
+// one random mutation that keeps object keys unique; returns its name
 func mutateJSON(r *rng.R, root *impl.JNode) string {
 	var nodes []*impl.JNode
 	collectNodes(root, &nodes)
@@ -440,11 +440,9 @@ func mutateJSON(r *rng.R, root *impl.JNode) string {
 			return "array-reverse"
 		}
 	}
-	var free []int
-	for i, k := range n.Key {
-		if !c19LinkKeys[k] && !(k == "VariableDefinition" && hasKey(n, "Raw")) {
-			free = append(free, i)
-		}
+	free := make([]int, len(n.Key))
+	for i := range n.Key {
+		free[i] = i
 	}
 	switch k := r.Intn(5); {
 	case k == 0 && len(free) > 0:
@@ -970,6 +968,9 @@ func checkC19(c *Ctx) {
 	if len(s.tri4) < 27 || len(s.bi4) < 9 {
 		c.Report("runtime", "json-generator-coverage", fmt.Sprintf("only %d of 27 sibling-kind triples and %d of 9 pairs were exercised at depth >= 4", len(s.tri4), len(s.bi4)), map[string]any{"op": "coverage"})
 	}
+	c.Ev.Assume = append(c.Ev.Assume,
+		"theorem C19_roundtrip assumes utf8CleanB d (every string of the tree is well-formed UTF-8); that the parser returns such a tree for every source text that is valid UTF-8 is tested on every parsed document of this run (json-wf-assumption-fails), not proved",
+		"the theorems compose encoder and decoder on the JSON value; that json.Marshal writes exactly the text of that value and json.Unmarshal reads it back is tested (byte-equal encodings, equal decodings of the texts), not proved")
 	c.Ev.Rule = "a case is one parsed document (compared with the model and judged), one JSON decoder input (compared with the model) or one string; distinct = distinct texts"
 	fmt.Printf("C19: documents tried=%d parsed=%d (spread %d, inline %d) model-encoding-equal=%d (comments skipped %d) model-roundtrip-equal=%d loss-free=%d utf8CleanB true/false=%d/%d\n",
 		s.docs, s.parsed, s.withSpread, s.withInline, s.encEqual, s.encSkippedComments, s.rtEqual, s.lossFree, s.wfTrue, s.wfFalse)
